@@ -24,23 +24,40 @@ pub fn write_with_failed_attempts(pat: Pat, psk_mask: u16, k: usize, oversize: b
     let mut pair = rm_pair::<P>(pat, psk_mask, NAME.as_bytes(), &pro);
     rm_advance::<P>(&mut pair, k);
     let rmw = if k % 2 == 0 { pair.i } else { pair.r };
-    let mut hs = snow_from_rm_ghost::<4, 4>(&rmw, NAME, true);
+    // ephemerals come from the stub RNG (not fixed): every attempt that reaches the "e" token must draw a fresh one
+    let mut hs = snow_from_rm_ghost::<4, 4>(&rmw, NAME, false);
+    let has_e = has_e_token(pat, k);
+    set_rng_slot(0, &[0x11, 0x12, 0x13, 0x14, 0, 0, 0, 0]);
+    set_rng_slot(1, &[0x21, 0x22, 0x23, 0x24, 0, 0, 0, 0]);
+    set_rng_slot(2, &[0x31, 0x32, 0x33, 0x34, 0, 0, 0, 0]);
     let mut buf = [0u8; BIG];
     if oversize {
         // larger than any handshake message may be, with a buffer that would hold it
         let r = hs.write_message(&ZEROS[..65535], &mut buf);
-        assert!(r == Err(Error::Input), "C06 harness: the oversize attempt must fail");
+        assert!(r == Err(Error::Input), "C14: a handshake message longer than 65535 bytes was not refused with the input error");
     }
     if smallcap > 0 {
         let other = [9u8, 9u8];
         let r = hs.write_message(&other, &mut buf[..smallcap]);
-        assert!(r == Err(Error::Input), "C06 harness: the undersized-buffer attempt must fail");
+        assert!(r == Err(Error::Input), "C14: a write into a buffer smaller than the message was not refused with the input error");
     }
     let payload: [u8; 3] = kani::any();
+    let draws_before = rng_draws();
     let r = hs.write_message(&payload, &mut buf);
+    if has_e {
+        assert!(rng_draws() == draws_before + 1, "C06: the ephemeral of a handshake message was not drawn from the resolver's random source during that write");
+        // the key on the wire is the one derived from the bytes drawn by THIS call
+        let slot = draws_before % 4;
+        let mut want = [0u8; 8];
+        let drawn: [u8; 4] = [0x11 + 0x10 * slot as u8, 0x12 + 0x10 * slot as u8, 0x13 + 0x10 * slot as u8, 0x14 + 0x10 * slot as u8];
+        crate::toy::dh_pub(4, &drawn, &mut want);
+        let off = if k == 0 && (psk_mask & 1) != 0 { 0 } else { 0 };
+        assert!(buf[off] == want[0] && buf[off + 1] == want[1] && buf[off + 2] == want[2] && buf[off + 3] == want[3], "C06: the ephemeral public key in the message is not derived from the bytes drawn during this write");
+    } else {
+        assert!(rng_draws() == draws_before, "C06: randomness drawn by a message without an ephemeral");
+    }
     kani::cover!(r.is_ok(), "C06 valid write reachable");
     assert!(r.is_ok(), "C06/C07: the valid write after failed attempts must succeed");
-    assert!(unsafe { G_N } >= 1, "C06 harness: at least one encryption logged");
     assert!(!ghost_log_has_reuse(), "C06: two different inputs were encrypted under the same key and nonce");
 }
 
@@ -60,6 +77,9 @@ reuse_harness!(c06_q_xx_w2_oversize_and_smallbuf, Pat::XX, 0, 2, true, 21);
 // X1N message 3 = "s": s and payload under the same key, consecutive nonces
 reuse_harness!(c06_q_x1n_w2_smallbuf, Pat::X1N, 0, 2, false, 21);
 reuse_harness!(c06_q_nnpsk0_w0_oversize, Pat::NN, 1, 0, true, 0);
+// failing attempts AFTER the e token of a message that carries one, then the retry
+reuse_harness!(c06_q_xx_w1_smallbuf_after_e, Pat::XX, 0, 1, false, 30);
+reuse_harness!(c06_q_nn_w0_oversize_after_e, Pat::NN, 0, 0, true, 0);
 reuse_harness!(c06_t_ik_w0_oversize_and_smallbuf, Pat::IK, 0, 0, true, 30);
 reuse_harness!(c06_t_xx_w1_oversize, Pat::XX, 0, 1, true, 0);
 reuse_harness!(c06_t_kk_w1_oversize, Pat::KK, 0, 1, true, 0);
